@@ -3,14 +3,28 @@ import SynKitModel.Store
 open Lean SynKit SynKit.Store
 namespace Driver.Store
 
-def parseSide (j : Json) : Except String (List (String × Int)) := do
+/-- A side input: an array whose entries are `[species, count]` (an entry of a mapping, or a
+2-tuple of an iterable) or a bare string (a label of an iterable). -/
+def parseItems (j : Json) : Except String (List SideItem) := do
   let arr ← (fromJson? j : Except String (Array Json))
-  arr.toList.mapM fun kv => do
-    let pr ← (fromJson? kv : Except String (Array Json))
-    if pr.size ≠ 2 then throw "side entry"
-    let k ← (fromJson? pr[0]! : Except String String)
-    let v ← (fromJson? pr[1]! : Except String Int)
-    pure (k, v)
+  arr.toList.mapM fun kv =>
+    match kv with
+    | .str s => pure (.label s)
+    | _ => do
+      let pr ← (fromJson? kv : Except String (Array Json))
+      if pr.size ≠ 2 then throw "side entry"
+      let k ← (fromJson? pr[0]! : Except String String)
+      let v ← (fromJson? pr[1]! : Except String Int)
+      pure (.pair k v)
+
+def parseSide (j : Json) : Except String (List (String × Int)) := do
+  pure (rawOfItems (← parseItems j))
+
+def parseFEdge (j : Json) : Except String FEdge := do
+  let rule ← match ← Driver.getOptStr j "rule" with
+    | some r => pure r
+    | none => pure "r"                       -- `getattr(e, "rule", "r")` on an edge without `rule`
+  pure ⟨← Driver.getOptStr j "id", rule, ← parseItems (← j.getObjVal? "r"), ← parseItems (← j.getObjVal? "p")⟩
 
 def optStr (j : Json) : Except String (Option String) :=
   match j with
@@ -27,6 +41,14 @@ def parseOp (j : Json) : Except String Op := do
   | "remove" => pure (.remove (← Driver.getNat j "k") (← Driver.getStr j "id"))
   | "removeSpecies" => pure (.removeSpecies (← Driver.getNat j "k") (← Driver.getStr j "sp") (← Driver.getBool j "prune"))
   | "merge" => pure (.merge (← Driver.getNat j "k") (← Driver.getNat j "j") (← Driver.getBool j "pfx"))
+  | "mergeEdges" => do
+    let other ← match j.getObjVal? "edges" with
+      | .ok .null => pure none
+      | .ok v => do
+        let arr ← (fromJson? v : Except String (Array Json))
+        pure (some (← arr.toList.mapM parseFEdge))
+      | .error _ => pure none
+    pure (.mergeEdges (← Driver.getNat j "k") other (← Driver.getBool j "pfx"))
   | "copy" => pure (.copy (← Driver.getNat j "k") (← Driver.getNat j "j"))
   | "assignMol" => pure (.assignMol (← Driver.getNat j "k") (← Driver.getStr j "sp") (← Driver.getStr j "m"))
   | "setMolMap" => do
@@ -87,6 +109,7 @@ def outJson : Out → Json
   | .err .keyError => "KeyError"
   | .err .valueError => "ValueError"
   | .err .indexError => "IndexError"
+  | .err .typeError => "TypeError"
   | .badOp => "badOp"
 
 def handle : Driver.Handler := fun cmd j =>
